@@ -23,12 +23,13 @@ META = {
             "/ as the full run / starved, and a starved loop fails the skip of the rest of the set; records only grow). "
             "(a) Skip-equivalence: decodeSet_skips (an undecodable set - unknown template id > 255 for the cache at that point, "
             "reserved id 4..255, for v9 also ids 2 and 3 - followed by ANY rest changes the decoder state only by advancing the "
-            "reader over the set: cache and records untouched, error slot non-fatal), outer_skips / outer_skips_tail (the outer "
-            "loop continues on the rest as if the set were absent), outer_locality (what a clean prefix decodes to does not depend "
-            "on what follows) and decode_skips: for hdr ++ pre ++ u ++ post vs hdr ++ pre ++ post, where pre decodes on its own "
-            "cleanly to its exact end, the records, the resulting cache and the fatal-error outcome are equal. The third kind of "
-            "undecodable set of the property text (data for a template naming an element missing from the model) is covered by "
-            "the correspondence + oracle only, not by a theorem. The models are tied to ipfix/decoder.go and "
+            "reader over the set: cache and records untouched, error slot non-fatal), decodeSet_skips_unknownElem (the same for a "
+            "data set with a cached template and a body > 4 octets on which the record decoder, run on the body alone, stops at an "
+            "element missing from the information model), outer_skips / outer_skips_tail (the outer loop continues on the rest as "
+            "if the set were absent), outer_locality (what a clean prefix decodes to does not depend on what follows) and "
+            "decode_skips: for hdr ++ pre ++ u ++ post vs hdr ++ pre ++ post, where pre decodes on its own cleanly to its exact "
+            "end and u is skipped at the cache reached there (Skipped; instances skipped_of_undecodable, skipped_of_unknownElem), "
+            "the records, the resulting cache and the fatal-error outcome are equal. The models are tied to ipfix/decoder.go and "
             "netflow/v9/decoder.go by running both on every insertion position and every truncation offset of sampled "
             "well-formed messages, with a model-independent prefix/equality oracle on the real decoder's output.",
     "ref": "DESIGN.md §6 C09",
